@@ -596,14 +596,17 @@ func init() {
 	g1Specs["C13"] = func(tier string) *G1Spec {
 		cfgs := []Config{
 			{Backing: "map", MinMergePct: 0.01, MergeOp: true},
-			{Backing: "map", MinMergePct: 100, CachePersisted: true, MergeOp: true},
+			{Backing: "map", MinMergePct: 100, CachePersisted: true, MergeOp: true, OpYield: true},
 			{Backing: "map", MinMergePct: 100, MaxDirtyOps: 1, MergeOp: true},
 			{Backing: "map", MinMergePct: 0.01, CachePersisted: true, MaxDirtyOps: 1, DeferredSort: true, MergeOp: true},
 			{Backing: "map", MinMergePct: 0.01, NoLLInit: true, MergeOp: true},
 		}
-		sp := &G1Spec{Prop: "C13", Alpha: c08Alpha, Configs: cfgs,
-			Steps: []string{"M", "MA", "Pb", "Pe", "Pf"}, Devs: []string{"m1", "p1", "m2", "p2"},
-			Roots: [][]string{{"B0", "M", "Pb", "Pe"}},
+		// plus a batch with merge operands on two keys; with OpYield the merger can be stopped between the two
+		alpha := append(append([]*BatchSpec{}, c08Alpha...), &BatchSpec{Ops: ops("M:a", "M:b")})
+		sp := &G1Spec{Prop: "C13", Alpha: alpha, Configs: cfgs,
+			Steps: []string{"M", "MA", "Pb", "Pe", "Pf"}, Devs: []string{"m1", "p1", "m2", "p2", "m3"},
+			// roots: one completed round; both keys persisted and a round with an unrelated... key in flight
+			Roots: [][]string{{"B0", "M", "Pb", "Pe"}, {"B4", "M", "Pb", "Pe", "B0", "M", "Pb"}},
 			MaxB:  3, MaxD: 9, MaxK: 1, Deadline: tierDeadline(tier),
 			Note: "map lower level applying each `higher` by the documented protocol; Pe/Pf = update succeeds / fails; oracles: lower level is a non-shrinking prefix state, overlay == model, failed update re-offered, drained => equal"}
 		if tier == "thorough" {
